@@ -26,7 +26,8 @@ def gen_cases(ck):
                       "sites": int(ck.rng.integers(18, 44)), "subset": [None, None, 0.7][int(ck.rng.integers(3))], "min_ridge": 0.005,
                       "mobius": mob, "strength": float(ck.rng.uniform(0.4, 2.0)), "kmin": 1 if mob else 0, "kmax": int(ck.rng.choice([3, 9])),
                       "param_mode": "random", "angle": float(ck.rng.uniform(0, 6.28)), "scale": float(10.0 ** ck.rng.uniform(-1, 1)),
-                      "fit": ["dlite", "taubinSVD"][int(ck.rng.integers(2))], "nvariants": 3 if ck.tier == "quick" else 5})
+                      "fit": ["dlite", "taubinSVD"][int(ck.rng.integers(2))], "nvariants": 3 if ck.tier == "quick" else 5,
+                      "angle_limit": float(ck.rng.uniform(0.7, 0.95) * math.pi)})
     return cases
 
 
@@ -53,6 +54,21 @@ def run_case(ck, case, reqs, pending):
         ifaces = sorted(tuple(sorted(r)) for r in ph.ridges)
         res = {"ifaces": ifaces, "coefs": ph.coefs, "tension": ph.tension, "pressure": ph.pressure, "wellposed": ph.wellposed,
                "sigma": ph.sigma, "removed": ph.removed_cells, "coef_tol": physical.coef_tolerance(sc, ph, fit)}
+        # |tension x turning| of the pressure equation of every physical interface (its sign convention goes with the cell order)
+        res["turning"] = {}
+        for be in ph.frame.internal_big_edges:
+            rg = ph.ridge_of([int(x) for x in be.get_vertices_ids()])
+            if rg is not None:
+                res["turning"][rg] = abs(float(impl.quiet(be.calculate_total_curvature, normalized=False)))
+        # the unknowns that remain under a finite angle limit (which junctions are flagged must not depend on the storage either)
+        lim = case.get("angle_limit")
+        if lim is not None:
+            used_lim = []
+            for dl in (-1e-6, 0.0, 1e-6):
+                impl.quiet(ph.forsys.build_force_matrix, when=0, circle_fit_method=fit, angle_limit=lim + dl)
+                used_lim.append(sorted(tuple(sorted(ph.ridge_of([int(x) for x in e]) or ())) for e in ph.forsys.force_matrices[0].big_edges_to_use))
+            res["used_lim"] = used_lim[1]
+            res["lim_stable"] = used_lim[0] == used_lim[1] == used_lim[2]
         # K: interface lists of this storage against the model
         reqs.append({"op": "frame", "mesh": mesh_json(ph.frame.vertices, ph.frame.edges, ph.frame.cells)})
         pending.append((dict(c), impl.observe_frame(ph.frame)))
@@ -62,6 +78,13 @@ def run_case(ck, case, reqs, pending):
         tag = f"variant {k} (p_rev={c['p_rev']}, shifts={c['shifts']}, relabel={c['relabel']}, shuffle_cells={c['shuffle_cells']})"
         if res["ifaces"] != ref["ifaces"]:
             ck.fail("the same set of internal interfaces", f"{tag}: {len(res['ifaces'])} vs {len(ref['ifaces'])}", c); continue
+        if lim is not None and res["lim_stable"] and ref["lim_stable"] and res["used_lim"] != ref["used_lim"]:
+            ck.fail("the same unknowns remain under a finite angle limit", f"{tag}: {len(res['used_lim'])} vs {len(ref['used_lim'])} at limit {lim:.4f}", c); continue
+        if lim is not None:
+            ck.count("angle_limited_unknowns_compared" if (res["lim_stable"] and ref["lim_stable"]) else "angle_limit_within_1e-6_of_a_junction_angle")
+        dturn = max((abs(res["turning"][r] - ref["turning"][r]) / (1e-9 + abs(ref["turning"][r])) for r in ref["turning"] if r in res["turning"]), default=0.0)
+        if set(res["turning"]) != set(ref["turning"]) or dturn > 1e-7:
+            ck.fail("the same pressure equations (turning of every physical interface, up to the sign convention)", f"{tag}: relative deviation {dturn:.3g}", c); continue
         if set(res["coefs"]) != set(ref["coefs"]):
             ck.fail("the same equations (junctions with an equation, interfaces in it)", f"{tag}: keys differ", c); continue
         dev = max((max(abs(a - b) for a, b in zip(res["coefs"][key], ref["coefs"][key])) for key in ref["coefs"]), default=0.0)
